@@ -176,7 +176,7 @@ def fnReturnType (name : String) (args : List Kind) : Kind :=
   | "len" => .pint
   | "enumerate" | "enum" => .iter (.tuple [ (match args with | a :: _ => a.iterInner | [] => .undefined), .pint ])
   | "zip" => if args.all Kind.isIter then .iter (.tuple (args.map Kind.iterInner)) else .iter .any
-  | "range" => .iter .integer
+  | "range" => (match args with | [.pint, .pint] => .iter .pint | _ => .iter .integer)
   | "union" | "intersection" | "difference" => (match args with | a :: _ => a | [] => .iter .any)
   | "nodes" | "V" => .iter .node
   | "edges" | "E" | "neigh_edges" | "N" | "neigh_edges_of" | "N_of" => .iter .edge
